@@ -687,7 +687,10 @@ func (sp *tableParser) parseUnionMessage(msg protoreflect.Message, field *Field,
 			if fieldCount := fieldprop.GetUnionCrossFieldCount(subField.opts.Prop); fieldCount > 0 {
 				for j := 1; j < fieldCount; j++ {
 					colName := prefix + unionDesc.ValueFieldName() + strconv.Itoa(int(fd.Number())+j)
-					c, err := rc.Cell(colName, sp.IsFieldOptional(subField))
+					// NOTE: never ask for an optional cell here: a missing column must
+					// end the loop, otherwise "cross:-1" (all the remaining columns)
+					// never stops on an optional sheet or field.
+					c, err := rc.Cell(colName, false)
 					if err != nil {
 						break
 					}
